@@ -84,6 +84,18 @@ def replay_case(case):
             fu = dreye.irr2flux(irr, lamv, return_units=True, **kw)
             if not dreye.has_units(fu) or np.max(np.abs(np.asarray(fu.magnitude, float) - exp)) > 1e-12 * np.max(np.abs(exp)) + 1e-300:
                 bad.append(("C20.units-returned", dict(return_units=True, **where0), True, dreye.has_units(fu)))
+        if dreye.has_units(irr):
+            # a unit-carrying spectrum with return_units=False given explicitly: the same numbers, as a plain array
+            fp = dreye.irr2flux(irr, lamv, return_units=False, **kw)
+            if dreye.has_units(fp) or np.shape(fp) != exp.shape or np.max(np.abs(np.asarray(fp, float) - exp)) > 1e-12 * np.max(np.abs(exp)) + 1e-300:
+                bad.append(("C20.law", dict(return_units=False, **where0), exp.tolist(), np.asarray(getattr(fp, "magnitude", fp), float).tolist()))
+            # the same quantity built with pint's module-level constructor (as unpickling or another library would)
+            import pint
+            irr2 = pint.Quantity(np.asarray(irr.magnitude, float), str(irr.units))
+            f2 = dreye.irr2flux(irr2, lamv, **kw)
+            f2m = np.asarray(f2.magnitude if dreye.has_units(f2) else f2, float)
+            if f2m.shape != exp.shape or np.max(np.abs(f2m - exp)) > 1e-12 * np.max(np.abs(exp)) + 1e-300:
+                bad.append(("C20.law", dict(constructor="pint.Quantity", **where0), exp.tolist(), f2m.tolist()))
         hasu = case["units"] in ("pint-I", "pint-uWcm2")
         if hasu != dreye.has_units(f):
             bad.append(("C20.units-returned", where0, hasu, dreye.has_units(f)))
